@@ -15,7 +15,7 @@
    NOT proved: that no faucet of a test network ever mints a liquidity token (it is a hypothesis of the batch
    invariant: faucets of test networks can mint any denomination). *)
 From MelVerif Require Import STF.Model STF.Proofs.Supply STF.Proofs.Pool STF.Proofs.SealCoins STF.Proofs.BatchSupply STF.Proofs.SealSupply STF.Proofs.SealLift STF.Proofs.SealInv STF.Proofs.HashFacts STF.Proofs.Witness STF.Proofs.Witness2 STF.Proofs.Witness3 STF.Proofs.Witness4
-  STF.Proofs.SealCounts STF.Proofs.History STF.Proofs.PoolHistory.
+  STF.Proofs.SealCounts STF.Proofs.History STF.Proofs.PoolHistory STF.Proofs.Declared STF.Proofs.BoundsHistory STF.Proofs.Born STF.Proofs.Witness5 STF.Proofs.Witness8.
 Open Scope N_scope.
 
 (* swapping leaves both reserves of a live pool positive and the issued liquidity unchanged *)
@@ -123,8 +123,8 @@ Theorem C16_settlement : forall K, NoDup (map poolkey_code K) -> forall SO s1 s2
   legacy_net s1 && (s_height s1 <? 978392) = false ->
   (forall t k, In t (sorted_txs s1) -> tx_pool t = Some k -> In k K /\ LDk SO k <> fst k /\ LDk SO k <> snd k) ->
   NoDup (key_pairs (sorted_txs s1)) ->
-  (forall t c, In t (sorted_txs s1) -> s_coins s1 !! key0 t = Some c -> as_declared c (out0 t)) ->
-  (forall t c, In t (sorted_txs s1) -> s_coins s1 !! key1 t = Some c -> as_declared c (out1 t)) ->
+  (forall t c, In t (sorted_txs s1) -> s_coins s1 !! key0 t = Some c -> as_declared t c (out0 t)) ->
+  (forall t c, In t (sorted_txs s1) -> s_coins s1 !! key1 t = Some c -> as_declared t c (out1 t)) ->
   nsum (map (fun t => cd_value (out0 t)) (sorted_txs s1)) < U128 ->
   nsum (map (fun t => cd_value (out1 t)) (sorted_txs s1)) < U128 ->
   (forall k p'' m, In k K ->
@@ -145,8 +145,8 @@ Theorem C16_seal_keeps_custom_backing : forall K, NoDup (map poolkey_code K) -> 
   legacy_net s && (s_height s <? 978392) = false ->
   (forall t k, In t (sorted_txs s) -> tx_pool t = Some k -> In k K /\ LDk SO k <> fst k /\ LDk SO k <> snd k) ->
   NoDup (key_pairs (sorted_txs s)) ->
-  (forall t c, In t (sorted_txs s) -> s_coins s !! key0 t = Some c -> as_declared c (out0 t)) ->
-  (forall t c, In t (sorted_txs s) -> s_coins s !! key1 t = Some c -> as_declared c (out1 t)) ->
+  (forall t c, In t (sorted_txs s) -> s_coins s !! key0 t = Some c -> as_declared t c (out0 t)) ->
+  (forall t c, In t (sorted_txs s) -> s_coins s !! key1 t = Some c -> as_declared t c (out1 t)) ->
   nsum (map (fun t => cd_value (out0 t)) (sorted_txs s)) < U128 ->
   nsum (map (fun t => cd_value (out1 t)) (sorted_txs s)) < U128 ->
   (forall s2 s3, process_swaps (create_builtins s) = Ok s2 -> process_deposits SO s2 = Ok s3 ->
@@ -184,8 +184,8 @@ Theorem C16_seal_invariant : forall K, NoDup (map poolkey_code K) -> forall SO, 
   legacy_net s && (s_height s <? 978392) = false ->
   (forall t k1, In t (sorted_txs s) -> tx_pool t = Some k1 -> In k1 K /\ LDk SO k1 <> fst k1 /\ LDk SO k1 <> snd k1) ->
   NoDup (key_pairs (sorted_txs s)) ->
-  (forall t c, In t (sorted_txs s) -> s_coins s !! key0 t = Some c -> as_declared c (out0 t)) ->
-  (forall t c, In t (sorted_txs s) -> s_coins s !! key1 t = Some c -> as_declared c (out1 t)) ->
+  (forall t c, In t (sorted_txs s) -> s_coins s !! key0 t = Some c -> as_declared t c (out0 t)) ->
+  (forall t c, In t (sorted_txs s) -> s_coins s !! key1 t = Some c -> as_declared t c (out1 t)) ->
   nsum (map (fun t => cd_value (out0 t)) (sorted_txs s)) < U128 ->
   nsum (map (fun t => cd_value (out1 t)) (sorted_txs s)) < U128 ->
   (forall s2 s3, process_swaps (create_builtins s) = Ok s2 -> process_deposits SO s2 = Ok s3 ->
@@ -245,8 +245,8 @@ Theorem C16_seal_premises_def : forall K SO s,
   legacy_net s && (s_height s <? 978392) = false /\
   (forall t k1, In t (sorted_txs s) -> tx_pool t = Some k1 -> In k1 K /\ LDk SO k1 <> fst k1 /\ LDk SO k1 <> snd k1) /\
   NoDup (key_pairs (sorted_txs s)) /\
-  (forall t c, In t (sorted_txs s) -> s_coins s !! key0 t = Some c -> as_declared c (out0 t)) /\
-  (forall t c, In t (sorted_txs s) -> s_coins s !! key1 t = Some c -> as_declared c (out1 t)) /\
+  (forall t c, In t (sorted_txs s) -> s_coins s !! key0 t = Some c -> as_declared t c (out0 t)) /\
+  (forall t c, In t (sorted_txs s) -> s_coins s !! key1 t = Some c -> as_declared t c (out1 t)) /\
   nsum (map (fun t => cd_value (out0 t)) (sorted_txs s)) < U128 /\
   nsum (map (fun t => cd_value (out1 t)) (sorted_txs s)) < U128 /\
   (forall s2 s3, process_swaps (create_builtins s) = Ok s2 -> process_deposits SO s2 = Ok s3 ->
@@ -267,3 +267,65 @@ Theorem C16_every_reachable_state : forall K, NoDup (map poolkey_code K) -> fora
   Backed K SO k s -> hist_all SO (pool_step_ok K SO k) s ops -> Backed K SO k (fold_left (hstep SO) ops s).
 Proof. exact pool_backed_forever. Qed.
 Print Assumptions C16_every_reachable_state.
+
+(* the same from a state of the invariant [Good2] (Properties/C01.v: true of the genesis state, kept by every
+   history), with nothing assumed about the coins of the states that are sealed: the steps need the hash-oracle
+   assumptions, the no-overflow bounds [seal_bounds] and that no faucet of a batch issues the pool's token *)
+Theorem C16_bounds_step_def : forall K SO k s o,
+  pool_bounds_step_ok K SO k s o <->
+  bounds_step_ok K SO s o /\ match o with HBatch lh txs => batch_issuance (LDk SO k) txs = 0 | HBlock a hdr => True end.
+Proof. exact pool_bounds_step_ok_def. Qed.
+Print Assumptions C16_bounds_step_def.
+Theorem C16_every_reachable_state_from_invariant : forall K, NoDup (map poolkey_code K) -> forall SO, In MS K /\ In ME K /\ In ES K ->
+  (forall k1 k2, In k1 K -> In k2 K -> LDk SO k1 = LDk SO k2 -> k1 = k2) ->
+  forall k, In k K -> forall ops s,
+  Good2 s -> Backed K SO k s -> hist_all SO (pool_bounds_step_ok K SO k) s ops -> Backed K SO k (fold_left (hstep SO) ops s).
+Proof. exact pool_backed_forever_inv. Qed.
+Print Assumptions C16_every_reachable_state_from_invariant.
+
+(* ---- from the beginning of a chain.  [Unborn K SO k s]: pool k does not exist and fewer than 10^9 of its
+   liquidity tokens do (in coins or parked in reserves) - as in a genesis state.  The first seal creates the
+   MEL/SYM and MEL/ERG pools with 10^9 of liquidity that nobody owns, so they are born live and backed with room. *)
+Theorem C16_unborn_def : forall K SO k s,
+  Unborn K SO k s <-> get_pool s k = None /\ coin_supply (LDk SO k) (s_coins s) + psum K (LDk SO k) s + 1 <= MICRO * 1000.
+Proof. exact unborn_def. Qed.
+Print Assumptions C16_unborn_def.
+Theorem C16_born_backed_def : forall K SO k s, BornBacked K SO k s <-> Backed K SO k s \/ Unborn K SO k s.
+Proof. exact born_backed_def. Qed.
+Print Assumptions C16_born_backed_def.
+Theorem C16_genesis_has_no_pool : forall K SO k net c fee_pool mult stakes,
+  cd_denom (c_data c) <> LDk SO k -> Unborn K SO k (genesis net c fee_pool mult stakes).
+Proof. exact genesis_unborn. Qed.
+Print Assumptions C16_genesis_has_no_pool.
+Theorem C16_first_seal_creates_backed_pool : forall K, NoDup (map poolkey_code K) -> forall SO, In MS K /\ In ME K /\ In ES K ->
+  (forall k1 k2, In k1 K -> In k2 K -> LDk SO k1 = LDk SO k2 -> k1 = k2) ->
+  forall k, k = MS \/ k = ME -> forall s a s',
+  seal SO s a = Ok s' -> Unborn K SO k s -> seal_premises K SO s -> Backed K SO k s'.
+Proof. exact seal_births_backed. Qed.
+Print Assumptions C16_first_seal_creates_backed_pool.
+(* every state of every history from a state of the invariant without the pool (a genesis state): the pool is
+   still unborn, or it exists, is live and is backed *)
+Theorem C16_builtin_pool_in_every_history : forall K, NoDup (map poolkey_code K) -> forall SO, In MS K /\ In ME K /\ In ES K ->
+  (forall k1 k2, In k1 K -> In k2 K -> LDk SO k1 = LDk SO k2 -> k1 = k2) ->
+  forall k, k = MS \/ k = ME -> forall ops s,
+  Good2 s -> BornBacked K SO k s -> hist_all SO (pool_bounds_step_ok K SO k) s ops ->
+  BornBacked K SO k (fold_left (hstep SO) ops s).
+Proof. exact born_backed_forever. Qed.
+Print Assumptions C16_builtin_pool_in_every_history.
+(* and from the first sealed block on it exists, is live and is backed - in every later state *)
+Theorem C16_builtin_pool_after_first_block : forall K, NoDup (map poolkey_code K) -> forall SO, In MS K /\ In ME K /\ In ES K ->
+  (forall k1 k2, In k1 K -> In k2 K -> LDk SO k1 = LDk SO k2 -> k1 = k2) ->
+  forall k, k = MS \/ k = ME -> forall ops1 a hdr ops2 s sealed,
+  Good2 s -> BornBacked K SO k s ->
+  hist_all SO (pool_bounds_step_ok K SO k) s (ops1 ++ HBlock a hdr :: ops2) ->
+  seal SO (fold_left (hstep SO) ops1 s) a = Ok sealed ->
+  Backed K SO k (fold_left (hstep SO) (ops1 ++ HBlock a hdr :: ops2) s).
+Proof. exact backed_after_first_block. Qed.
+Print Assumptions C16_builtin_pool_after_first_block.
+(* non-vacuity: the premises hold on the history of STF/Proofs/Witness5.v *)
+Theorem C16_born_witness :
+  Unborn w_K3 w_oracle MS w_state /\
+  hist_all w_oracle (pool_bounds_step_ok w_K3 w_oracle MS) w_state ([HBatch w_header w_batch] ++ HBlock (Some w_action) w_header :: []) /\
+  (exists sealed, seal w_oracle (fold_left (hstep w_oracle) [HBatch w_header w_batch] w_state) (Some w_action) = Ok sealed).
+Proof. exact w_born. Qed.
+Print Assumptions C16_born_witness.
